@@ -75,6 +75,8 @@ pub struct WorkerReport {
     pub corpus_runs: u64,
     #[serde(default)]
     pub extra_runs: u64,
+    #[serde(default)]
+    pub amplified_corpus_specs: u64,
     /// (harvest key, explicit spec) of clean runs that reached a rare condition
     #[serde(default)]
     pub candidates: Vec<(String, Value)>,
@@ -83,7 +85,20 @@ pub struct WorkerReport {
 /// Process warm-up under the global entropy seed `g`: pins whatever is
 /// initialised once per process (lazy tables, the getrandom crate's probe).
 pub fn warm_up<E: Engine>(env: &Env, g: u64) {
-    let spec = E::plan(env, g, 0);
+    // which scenario (hence which message type) a process touches first is part of the explored
+    // state: MTSIM_FIRST_TOUCH=<scenario index> (set by the driver for its first-touch workers),
+    // otherwise the scenario the global seed picks
+    let nf = env.scenarios.len() as u64;
+    let idx = std::env::var("MTSIM_FIRST_TOUCH").ok().and_then(|s| s.parse::<u64>().ok()).unwrap_or(g % nf.max(1));
+    // half of the processes also make one default-configuration scenario lookup before anything
+    // else, with SWIFT_SCENARIO_PATH unset (its result is ignored): "was the default configuration
+    // looked at before the environment was set up" is process history too
+    if g % 2 == 1 {
+        unsafe { std::env::remove_var("SWIFT_SCENARIO_PATH") };
+        let _ = swift_mt_message::ScenarioConfig::default();
+        let _ = swift_mt_message::scenario_config::find_scenario_for_message_type_with_config("MT000", &swift_mt_message::ScenarioConfig::default());
+    }
+    let spec = E::plan(env, g, idx);
     let _ = E::execute(env, &spec);
 }
 
@@ -181,12 +196,16 @@ pub fn worker<E: Engine>(env: &Env, base: u64, p: u64, workers: u64, total: u64,
     let (mut fps, mut shapes, mut contents) = (HashSet::new(), HashSet::new(), HashSet::new());
     let max_shrunk_classes = 6;
     let mut recent: std::collections::VecDeque<E::Spec> = std::collections::VecDeque::new();
-    let corpus: Vec<E::Spec> = load_corpus(E::PROPERTY).into_iter().filter_map(|v| serde_json::from_value(v).ok()).collect();
+    let mut corpus: Vec<E::Spec> = if std::env::var("MTSIM_NO_CORPUS").is_ok() { vec![] } else { load_corpus(E::PROPERTY).into_iter().filter_map(|v| serde_json::from_value(v).ok()).collect() };
+    // every recorded run is also replayed in a scaled-up variant (large batches), where the engine has one
+    let amplified: Vec<E::Spec> = corpus.iter().filter_map(|s| E::amplify(s)).collect();
+    rep.amplified_corpus_specs = amplified.len() as u64;
+    corpus.extend(amplified);
     let mut harvest_seen: std::collections::HashMap<String, u32> = std::collections::HashMap::new();
     // run sources: the seeded batch [0,total), then the corpus, then extra run indices
     // (deeper exploration of scenario files that changed since the corpus was recorded)
     let n_all = total + corpus.len() as u64 + extra.len() as u64;
-    let mut i = p;
+    let mut i = p % workers.max(1);
     while i < n_all {
         let from_corpus = i >= total && i < total + corpus.len() as u64;
         let spec = if from_corpus {
